@@ -41,8 +41,8 @@ CLAUSES = {
     "ret.exception_identity": {"C02", "C14", "C11"},
     "args.body_received": {"C14"},
     "args.contract_seen": {"C05"},
-    "inv.missing_before": {"C03"},
-    "inv.missing_after": {"C03"},
+    "inv.missing_before": {"C03", "C16"},     # (C16: a phase of the check is left out)
+    "inv.missing_after": {"C03", "C16"},
     "inv.missing_after_ctor": {"C03"},
     "inv.on_unfinished_object": {"C03"},
     "inv.unexpected_evaluation": {"C03"},
